@@ -40,6 +40,8 @@ def getRx (j : Json) : Rx :=
 def jCErr : CErr → Json
   | .template cls msg tok => Json.mkObj [("exc", "TemplateError"), ("cls", Json.str cls), ("msg", Json.str msg),
       ("token", jStr tok.str), ("offset", jNat tok.pos)]
+  | .templateNoSrc cls msg tok => Json.mkObj [("exc", "TemplateError"), ("cls", Json.str cls), ("msg", Json.str msg),
+      ("token", jStr tok), ("offset", jNat 0)]
   | .crash cls => Json.mkObj [("exc", "other"), ("cls", Json.str cls)]
 
 def jSRes : SRes Str → Json
